@@ -747,6 +747,36 @@ def tiny_slack(w):
     return tot
 
 
+def chained_tiny(w):
+    """class `chained-near-duplicates` as it arises from circuits: two or more rotations whose pulses are below the grid
+    resolution (their end points chain: each within 1e-10 of the previous one, the last more than 1e-10 after the first) -
+    get_full_tlist as found drops points that are more than tol from every kept point (fixes/C14-8).  Conservative, decided
+    on the input: at least two rotations of the class grid-step-below-tol."""
+    if w.get("kind") == "history":
+        return any(chained_tiny(step_witness(w, s)) for s in w["steps"])
+    if w.get("kind") != "load":
+        return False
+    n = 0
+    for g in w["gates"]:
+        if g[0] in ("RX", "RY", "RZ", "PHASEGATE") and isinstance(g[3], (int, float)) and g[3] != 0:
+            if tiny_rotation({"kind": "load", "params": w.get("params"), "gates": [g]}):
+                n += 1
+    return n >= 2
+
+
+def kept_flag():
+    """does get_full_tlist compare with the last KEPT point (fixes/C14-8.patch applied)?  read by C14's translator"""
+    from props import c14
+    try:
+        return bool(c14.detect_flags()["kk"])
+    except TranslatorError:
+        return False
+
+
+CHAIN_WITNESS = {"kind": "load", "setup": "linear", "N": 1, "mode": None, "params": None,
+                 "gates": [["RX", [0], [], 1.0], ["RZ", [0], [], 8.8e-10], ["RZ", [0], [], 8.8e-10], ["RX", [0], [], 1.0]]}
+
+
 def catchup_flag():
     """does _fill_coeff catch up over several slots (fixes/C14-7.patch applied)?  read from the source by C14's translator"""
     from props import c14
@@ -1779,12 +1809,19 @@ class C06(PropertyCheck):
     def oracle_replay(self, ctx, w):
         return check_property(w)
 
+    def _kept(self):
+        if getattr(self, "_kk", None) is None:
+            self._kk = kept_flag()
+        return self._kk
+
     def _catchup(self):
         if getattr(self, "_cu", None) is None:
             self._cu = catchup_flag()
         return self._cu
 
     def finding_matches(self, witness, finding):
+        if finding.get("class") == "chained-near-duplicates":
+            return chained_tiny(witness)
         if finding.get("class") == "grid-step-below-tol":
             return tiny_rotation(witness)
         if finding.get("class") == "sequence-targets":
@@ -1801,6 +1838,10 @@ class C06(PropertyCheck):
             # stay on uncoupled qubits and are SILENTLY compiled onto a wrong coupling) - candidate finding, fixes/C06-3.patch;
             # the model's qubit lists are lists.  Tree as found: skipped until the class is recorded (then KNOWN-FINDING);
             # tree with the patch: evaluated and must be exact
+            return True
+        if chained_tiny(w) and not (class_recorded("chained-near-duplicates") or self._kept()):
+            # several pulses below the resolution in a row: points dropped although more than tol from every kept point
+            # (defect of get_full_tlist as found, fixes/C14-8); evaluated once repaired or recorded as known
             return True
         if tiny_rotation(w) and not (class_recorded() or self._catchup()):
             # excluded by hypothesis (SepAll).  Tree as found: once the class is a recorded known finding its members are
@@ -1858,6 +1899,14 @@ class C06(PropertyCheck):
                        "gates": [["RX", [0], [], 1.0], [name, [0], [], a], ["RX", [0], [], 1.0]]}
         yield {"kind": "load", "setup": "circular", "N": 3, "mode": None, "params": None,
                "gates": [["PHASEGATE", [0], [], 1e-9], ["RZ", [1], [], 0.7], ["RZ", [0], [], 1e-9], ["SWAP", [0, 1], [], None]]}
+        # several pulses below the resolution in a row (class chained-near-duplicates)
+        yield CHAIN_WITNESS
+        for mode in ("ASAP", None):
+            yield {"kind": "load", "setup": "linear", "N": 1, "mode": mode, "params": None,
+                   "gates": [["RX", [0], [], 1.0]] + [["RZ", [0], [], 6e-10]] * 3 + [["RX", [0], [], 1.0]]}
+            yield {"kind": "load", "setup": "linear", "N": 2, "mode": mode, "params": None,
+                   "gates": [["RX", [0], [], 1.0], ["RZ", [0], [], 8.8e-10], ["RZ", [1], [], 1.0], ["RZ", [0], [], -8.8e-10],
+                             ["RX", [0], [], 1.0], ["CNOT", [1], [0], None]]}
         # object forms of the gates, special angles, ONE circuit object edited in place between the loads
         yield from self._form_witnesses()
         yield from self._special_witnesses()
